@@ -27,12 +27,12 @@ class RankedHandle(asyncio.TimerHandle):
     __slots__ = ("_rank", "_seq")
     _counter = 0
 
-    def __init__(self, when, callback, args, loop, rank, context=None):
+    def __init__(self, when, callback, args, loop, rank, context=None, fifo=False):
         super().__init__(when, callback, args, loop, context)
         self._rank = rank
         RankedHandle._counter += 1
         n = RankedHandle._counter
-        tb = getattr(loop, "tiebreak", "fifo")
+        tb = "fifo" if fifo else getattr(loop, "tiebreak", "fifo")
         if tb == "fifo":
             self._seq = n
         elif tb == "lifo":
@@ -172,10 +172,13 @@ class VLoop(asyncio.BaseEventLoop):
         return self.call_at_ranked(when, 0, callback, *args, context=context)
 
     # -- driving ---------------------------------------------------------------------
-    def call_at_ranked(self, when, rank, callback, *args, context=None):
+    def call_at_ranked(self, when, rank, callback, *args, context=None, fifo=False):
+        """fifo=True: keep creation order among equal deadlines whatever the tie-break variant (the simulated network
+        uses it: two datagrams sent in one instant over the same path must not overtake each other unless a fault
+        window says so - reordering would look like a reboot to the receiver)"""
         import heapq
 
-        h = RankedHandle(when, callback, args, self, rank, context)
+        h = RankedHandle(when, callback, args, self, rank, context, fifo=fifo)
         heapq.heappush(self._scheduled, h)
         h._scheduled = True
         return h
